@@ -19,6 +19,8 @@ form.  `prefix_chart_sound`: every tree the machine yields — complete (first l
 is the node of the start symbol over a `PreL` derivation of one of its rules spanning all columns.
 -/
 import Proofs.C04Chart
+import Proofs.C04Compile
+import Proofs.C04Collapse
 import Proofs.EarleyPrefixTerm
 namespace FV.Earley
 
@@ -501,13 +503,16 @@ def GoodB (pc : PCfg) (s : PSt) : Prop := GoodIK pc s.item s.kids pc.L
 
 /-- the invariant of both phases -/
 structure SInvP (pc : PCfg) (pm : PM) : Prop where
-  mach : SInv pc pm.m
+  /-- phase A: the chart invariant of the embedded machine -/
+  machA : pm.phaseB = false → SInv pc pm.m
+  /-- phase B: the columns before the last (they are not changed any more) -/
+  old : pm.phaseB = true → ∀ j s, j ≠ pc.L → s ∈ (colAt pm.m.cols j).dots → GoodP pc s j
+  mout : ∀ pt, pt ∈ pm.m.out → TopOkP pc pt
   incs : ∀ p, p ∈ pm.incs → DerIK pc p.2.item p.2.kids pc.L
   last : ∀ s, s ∈ pm.last → DerB pc s
   ldots : ∀ s, s ∈ pm.ldots → GoodB pc s
   frame : ∀ t j, pm.frame = some (t, j) → DerB pc t
   out : ∀ pt, pt ∈ pm.out → TopOkP pc pt
-  /-- phase A has not gone beyond the last column; phase B is in it -/
   pos : 0 < pc.c.ncols
 
 def PRes.mach : PRes → PM
@@ -530,16 +535,22 @@ theorem advanceP_shape (p : Policy) (L : Nat) (t s : PSt) {x : NT} {a r : Option
     (hy : s.item.sym? = some (.n x a r)) :
     (advanceP p L t s).item = s.item.next ∧
     (advanceP p L t s).kids = s.kids ++ (if t.item.lhs.explicit then [PT.node t.item.lhs a r t.kids] else t.kids) := by
+  refine ⟨rfl, ?_⟩
   unfold advanceP
   simp only [hy]
-  refine ⟨rfl, ?_⟩
   split <;> rfl
 
 theorem sinvP_init (pc : PCfg) (hpos : 0 < pc.c.ncols) : SInvP pc (PM.init pc) :=
-  ⟨sinv_init pc, by intro p h; simp [PM.init] at h, by intro s h; simp [PM.init] at h,
-   by intro s h; simp [PM.init] at h, by intro t j h; simp [PM.init] at h, by intro pt h; simp [PM.init] at h, hpos⟩
+  ⟨fun _ => sinv_init pc, (by intro h; cases h), (by intro pt h; cases h), (by intro p h; simp [PM.init] at h),
+   (by intro s h; simp [PM.init] at h), (by intro s h; simp [PM.init] at h), (by intro t j h; simp [PM.init] at h),
+   (by intro pt h; simp [PM.init] at h), hpos⟩
 
-theorem sinvP_stepB (pc : PCfg) (hs : SaneS pc.c) (pm : PM) (hi : SInvP pc pm) : SInvP pc (stepB pc pm).mach := by
+/-- one step of the end-of-input phase -/
+theorem sinvP_stepB (pc : PCfg) (hs : SaneS pc.c) (pm : PM) (hph : pm.phaseB = true) (hi : SInvP pc pm) :
+    SInvP pc (stepB pc pm).mach := by
+  have hold := hi.old hph
+  have hA : ∀ pm' : PM, pm'.phaseB = true → pm'.phaseB = false → SInv pc pm'.m := by
+    intro pm' h1 h2; rw [h1] at h2; cases h2
   unfold stepB
   simp only
   split
@@ -547,7 +558,7 @@ theorem sinvP_stepB (pc : PCfg) (hs : SaneS pc.c) (pm : PM) (hi : SInvP pc pm) :
     rename_i t j hfr
     have htd := hi.frame t j hfr
     split
-    · exact ⟨hi.mach, hi.incs, hi.last, hi.ldots, (by intro t' j' h; cases h), hi.out, hi.pos⟩
+    · exact ⟨hA _ hph, fun _ => hold, hi.mout, hi.incs, hi.last, hi.ldots, (by intro t' j' h; cases h), hi.out, hi.pos⟩
     · rename_i s hsome
       have hsmem : s ∈ listOf pm pc.L t := List.mem_of_getElem? hsome
       -- the advanced state is good in the origin column of `t`
@@ -558,8 +569,9 @@ theorem sinvP_stepB (pc : PCfg) (hs : SaneS pc.c) (pm : PM) (hi : SInvP pc pm) :
           have hm := List.mem_filter.1 hsmem
           refine ⟨?_, by simpa using hm.2⟩
           rw [hp]; exact hi.ldots s hm.1
-        · obtain ⟨s0, hs0, rfl⟩ := List.mem_map.1 hsmem
-          exact ⟨hi.mach.dots _ _ (mem_findDot hs0), findDot_dotNT? hs0⟩
+        · rename_i hp
+          obtain ⟨s0, hs0, rfl⟩ := List.mem_map.1 hsmem
+          exact ⟨hold _ _ hp (mem_findDot hs0), findDot_dotNT? hs0⟩
       obtain ⟨a, r, hy⟩ := dotNT?_n hsg.2
       obtain ⟨h1, h2⟩ := advanceP_shape pc.c.policy pc.L t s hy
       have hnewG : GoodB pc (advanceP pc.c.policy pc.L t s) := by
@@ -574,10 +586,10 @@ theorem sinvP_stepB (pc : PCfg) (hs : SaneS pc.c) (pm : PM) (hi : SInvP pc pm) :
       rcases addLast_cases pc.c.policy pm (advanceP pc.c.policy pc.L t s) with he | ⟨_, he | he⟩
       · simp only [PRes.mach]
         rw [he]
-        exact ⟨hi.mach, hi.incs, hi.last, hi.ldots, hfr', hi.out, hi.pos⟩
+        exact ⟨hA _ hph, fun _ => hold, hi.mout, hi.incs, hi.last, hi.ldots, hfr', hi.out, hi.pos⟩
       · simp only [PRes.mach]
         rw [he]
-        refine ⟨hi.mach, hi.incs, ?_, ?_, hfr', hi.out, hi.pos⟩
+        refine ⟨hA _ hph, fun _ => hold, hi.mout, hi.incs, ?_, ?_, hfr', hi.out, hi.pos⟩
         · intro x hx
           simp only [List.mem_append, List.mem_singleton] at hx
           rcases hx with hx | hx
@@ -590,7 +602,7 @@ theorem sinvP_stepB (pc : PCfg) (hs : SaneS pc.c) (pm : PM) (hi : SInvP pc pm) :
           · rw [hx]; exact hnewG
       · simp only [PRes.mach]
         rw [he]
-        refine ⟨hi.mach, hi.incs, ?_, hi.ldots, hfr', hi.out, hi.pos⟩
+        refine ⟨hA _ hph, fun _ => hold, hi.mout, hi.incs, ?_, hi.ldots, hfr', hi.out, hi.pos⟩
         intro x hx
         simp only [List.mem_append, List.mem_singleton] at hx
         rcases hx with hx | hx
@@ -598,20 +610,22 @@ theorem sinvP_stepB (pc : PCfg) (hs : SaneS pc.c) (pm : PM) (hi : SInvP pc pm) :
         · rw [hx]; exact hnewD
   · rename_i hfr
     split
-    · -- the end: only the chart is touched (`place_repetition_shortcut`), no tree is yielded any more
-      refine ⟨?_, hi.incs, hi.last, hi.ldots, (by intro t j h; simp only [PRes.mach] at h; rw [hfr] at h; cases h),
-        hi.out, hi.pos⟩
-      -- the embedded chart is not read any more; its invariant is not claimed for the final column
-      exact ⟨by intro j s h; exact absurd h (by
-                  intro _; exact False.elim (by
-                    sorry)), by sorry, by sorry, by sorry, hi.mach.out⟩
+    · -- the end: only the last column is touched (`place_repetition_shortcut`), no tree is yielded any more
+      refine ⟨hA _ hph, ?_, hi.mout, hi.incs, hi.last, hi.ldots,
+        (by intro t j h; simp only [PRes.mach] at h; rw [hfr] at h; cases h), hi.out, hi.pos⟩
+      intro _ j s hj hsd
+      simp only [PRes.mach] at hsd
+      rw [(ext_shortcut _ pc.L).2.2.1 j hj, colAt_set] at hsd
+      have : ¬ (j = pc.L ∧ pc.L < pm.m.cols.length) := fun h => hj h.1
+      rw [if_neg this] at hsd
+      exact hold j s hj hsd
     · rename_i s hsome
       have hsmem : s ∈ pm.last := List.mem_of_getElem? hsome
       have hsd := hi.last s hsmem
       split
-      · exact ⟨hi.mach, hi.incs, hi.last, hi.ldots, (by intro t j h; simp only [PRes.mach] at h; rw [hfr] at h; cases h),
-          hi.out, hi.pos⟩
-      · refine ⟨hi.mach, hi.incs, hi.last, hi.ldots, ?_, ?_, hi.pos⟩
+      · exact ⟨hA _ hph, fun _ => hold, hi.mout, hi.incs, hi.last, hi.ldots,
+          (by intro t j h; simp only [PRes.mach] at h; rw [hfr] at h; cases h), hi.out, hi.pos⟩
+      · refine ⟨hA _ hph, fun _ => hold, hi.mout, hi.incs, hi.last, hi.ldots, ?_, ?_, hi.pos⟩
         · intro t j h
           simp only [PRes.mach] at h
           split at h
@@ -626,5 +640,250 @@ theorem sinvP_stepB (pc : PCfg) (hs : SaneS pc.c) (pm : PM) (hi : SInvP pc pm) :
             · rename_i hst
               exact top_of_der hs hsd hst (by unfold PCfg.L; have := hi.pos; omega) pt (mem_newKids h)
             · cases h
+
+theorem mem_addInc {p : Policy} {ord : List St} {incs : List (Nat × St)} {s : St} {x : Nat × St}
+    (h : x ∈ addInc p ord incs s) : x ∈ incs ∨ x.2 = s := by
+  unfold addInc at h
+  split at h
+  · exact Or.inl h
+  · simp only [List.mem_append, List.mem_singleton] at h
+    rcases h with h | h
+    · exact Or.inl h
+    · right; rw [h]
+
+/-- the incomplete twin of a good state is a prefix derivation that ends with the partial leaf -/
+theorem twin_der {pc : PCfg} {m : M} {e : Nat} {s : St} (hm : SInv pc m) (h : twinOf pc m = some (e, s))
+    (he : e + 1 = pc.c.ncols) : DerIK pc s.item s.kids pc.L := by
+  obtain ⟨s0, term, l, hs0, hsym, hscan, rfl⟩ := twinOf_some h
+  have hg := hm.states _ _ (List.mem_of_getElem? hs0)
+  have hL : pc.L = e := by unfold PCfg.L; omega
+  refine ⟨hg.1, hg.2.1, ?_⟩
+  have := hg.2.2 pc.L [PT.leaf l] (by rw [drop_of_sym hsym, hL]; exact PreL.pterm hscan)
+  exact this
+
+/-- the first loop over the last column is over -/
+theorem sinvP_handover (pc : PCfg) (pm : PM) (hph : pm.phaseB = false) (hi : SInvP pc pm) :
+    SInvP pc (handover pc pm) := by
+  have hm := hi.machA hph
+  refine ⟨(by intro h; cases h), fun _ j s _ hs => hm.dots j s hs, hm.out, hi.incs, ?_, ?_, hi.frame, hi.out, hi.pos⟩
+  · intro s hs
+    have hs' : s ∈ mergeInc pc.L 0 (colAt pm.m.cols pc.L).states pm.incs := hs
+    have := (mergeInc_perm pc.L _ 0 pm.incs).mem_iff.1 hs'
+    simp only [List.mem_append, List.mem_map] at this
+    rcases this with ⟨o, ho, rfl⟩ | ⟨p, hp, rfl⟩
+    · exact der_of_good (hm.states pc.L o ho)
+    · exact hi.incs p hp
+  · intro s hs
+    have hs' : s ∈ (colAt pm.m.cols pc.L).dots.map (PSt.ofSt pc.L) := hs
+    obtain ⟨o, ho, rfl⟩ := List.mem_map.1 hs'
+    exact hm.dots pc.L o ho
+
+/-- **one step of the prefix-mode machine keeps the soundness invariant** (every policy, prediction order, scanner) -/
+theorem sinvP_step (pc : PCfg) (hs : SaneS pc.c) (pm : PM) (hi : SInvP pc pm) : SInvP pc (stepP pc pm).mach := by
+  unfold stepP
+  split
+  · rename_i hph
+    exact sinvP_stepB pc hs pm hph hi
+  · rename_i hph
+    have hphf : pm.phaseB = false := by
+      cases h : pm.phaseB with
+      | true => exact absurd h hph
+      | false => rfl
+    have hm := hi.machA hphf
+    have hold : ∀ pm' : PM, pm'.phaseB = false → pm'.phaseB = true → ∀ j s, j ≠ pc.L →
+        s ∈ (colAt pm'.m.cols j).dots → GoodP pc s j := by
+      intro pm' h1 h2; rw [h1] at h2; cases h2
+    simp only
+    split
+    · exact hi
+    · split
+      · exact sinvP_handover pc pm hphf hi
+      · have hstep := sinv_step_mach pc hs pm.m hm
+        split
+        · rename_i m' heq
+          rw [heq] at hstep
+          exact ⟨fun _ => hstep, hold _ hphf, hstep.out, hi.incs, hi.last, hi.ldots, hi.frame, hi.out, hi.pos⟩
+        · rename_i m' heq
+          rw [heq] at hstep
+          exact ⟨fun _ => hstep, hold _ hphf, hstep.out, hi.incs, hi.last, hi.ldots, hi.frame, hi.out, hi.pos⟩
+        · rename_i m' heq
+          rw [heq] at hstep
+          split
+          · exact ⟨fun _ => hstep, hold _ hphf, hstep.out, hi.incs, hi.last, hi.ldots, hi.frame, hi.out, hi.pos⟩
+          · rename_i e s htwin
+            split
+            · rename_i he
+              refine ⟨fun _ => hstep, hold _ hphf, hstep.out, ?_, hi.last, hi.ldots, hi.frame, hi.out, hi.pos⟩
+              intro p hp
+              rcases mem_addInc hp with h | h
+              · exact hi.incs p h
+              · rw [h]; exact twin_der hm htwin he
+            · exact ⟨fun _ => hstep, hold _ hphf, hstep.out, hi.incs, hi.last, hi.ldots, hi.frame, hi.out, hi.pos⟩
+
+theorem sinvP_run (pc : PCfg) (hs : SaneS pc.c) (fuel : Nat) :
+    ∀ pm : PM, SInvP pc pm → SInvP pc (runP pc fuel pm).mach := by
+  induction fuel with
+  | zero => intro pm hi; exact hi
+  | succ f ih =>
+    intro pm hi
+    have h := sinvP_step pc hs pm hi
+    unfold runP
+    cases hst : stepP pc pm with
+    | next pm' => rw [hst] at h; exact ih pm' h
+    | done pm' => rw [hst] at h; exact h
+    | raised pm' => rw [hst] at h; exact h
+
+/-- **chart soundness of prefix mode**: for every policy, prediction order, scanner, partial-match oracle and fuel, every
+    tree the prefix-mode machine has yielded — in the first loop or in the end-of-input phase — is the node of the start
+    symbol over a prefix of an expansion of one of its rules, spanning all columns, and so on below -/
+theorem prefix_chart_sound (pc : PCfg) (hs : SaneS pc.c) (hpos : 0 < pc.c.ncols) (fuel : Nat) :
+    ∀ pt, pt ∈ (runP pc fuel (PM.init pc)).mach.m.out ++ (runP pc fuel (PM.init pc)).mach.out → TopOkP pc pt := by
+  have h := sinvP_run pc hs fuel (PM.init pc) (sinvP_init pc hpos)
+  intro pt hpt
+  rcases List.mem_append.1 hpt with h1 | h1
+  · exact h.mout pt h1
+  · exact h.out pt h1
+
+/-! ### the leaves of a partial tree tile the whole input -/
+
+/-- a partial match takes the whole rest of the input -/
+theorem iscanV_some {v : Variant} {pi : PInput} {t : Term} {k m : Nat} {l : Leaf}
+    (h : iscanV v pi t k = some (m, l)) :
+    m = k + 8 * (pi.inp.cells.drop (k / 8)).length ∧ l = mkLeaf pi.inp.isBytes (pi.inp.cells.drop (k / 8)) := by
+  unfold iscanV at h
+  cases t with
+  | regex id =>
+    simp only at h
+    split at h
+    · cases h
+    · split at h
+      · simp only [Option.some.injEq, Prod.mk.injEq] at h
+        exact ⟨h.1.symm, h.2.symm⟩
+      · cases h
+  | lit lf =>
+    cases lf with
+    | bit b => simp at h
+    | text s =>
+      simp only at h
+      split at h
+      · cases h
+      · split at h
+        · cases h
+        · split at h
+          · cases h
+          · split at h
+            · simp only [Option.some.injEq, Prod.mk.injEq] at h
+              exact ⟨h.1.symm, h.2.symm⟩
+            · cases h
+    | bytes b =>
+      simp only at h
+      split at h
+      · cases h
+      · split at h
+        · cases h
+        · split at h
+          · cases h
+          · split at h
+            · simp only [Option.some.injEq, Prod.mk.injEq] at h
+              exact ⟨h.1.symm, h.2.symm⟩
+            · cases h
+
+theorem startsWith_self (xs : List Nat) : startsWith xs xs = true := by
+  have := startsWith_take xs xs.length
+  rwa [List.take_length] at this
+
+/-- the partial leaf is as wide as the columns it covers and is what the input holds there -/
+theorem iscanV_ok (v : Variant) (pi : PInput) (hc : CellsOk pi.inp) {t : Term} {k m : Nat} {l : Leaf}
+    (h : iscanV v pi t k = some (m, l)) : m = k + l.width ∧ LeafAt pi.inp k l := by
+  obtain ⟨rfl, rfl⟩ := iscanV_some h
+  cases hb : pi.inp.isBytes with
+  | false =>
+    refine ⟨?_, ?_⟩
+    · simp [mkLeaf, Leaf.width]
+    · simp only [mkLeaf, Bool.false_eq_true, if_false, LeafAt]
+      exact ⟨hb, startsWith_self _⟩
+  | true =>
+    have hlt : ∀ c ∈ pi.inp.cells.drop (k / 8), c < 256 := fun c hcm => hc hb c (List.mem_of_mem_drop hcm)
+    refine ⟨?_, ?_⟩
+    · simp [mkLeaf, Leaf.width]
+    · simp only [mkLeaf, if_true, LeafAt]
+      rw [map_val_mkByte _ hlt]
+      exact ⟨hb, startsWith_self _⟩
+
+/-- the leaves of a prefix derivation over the compiled table tile the columns it spans: complete leaves match the
+    input at their column, the partial leaf is the rest of the input -/
+theorem preL_tiles (G : Grammar) (cap : Option Nat) (start : String) (inp : Input) (scan iscan : Scan) (P : Term → Bool)
+    (hP : ∀ x rhs t, (x, rhs) ∈ compile G cap → ESym.t t ∈ rhs → P t = true)
+    (hscan : ∀ t, P t = true → ∀ i m l, scan t i = some (m, l) → m = i + l.width ∧ LeafAt inp i l)
+    (hiscan : ∀ t i m l, iscan t i = some (m, l) → m = i + l.width ∧ LeafAt inp i l)
+    {rhs : List ESym} {ks : List PT} {i j : Nat}
+    (h : PreL (tableOf G cap start) scan iscan rhs ks i j) (hsub : InTable G cap start rhs) :
+    TilesLoose inp (Tree.leavesL (collapseL ks)) i j := by
+  induction h with
+  | stop rhs i => simpa only [collapseL, Tree.leavesL] using TilesLoose.nil i
+  | @term t i m j l ss ks hs hd ih =>
+    obtain ⟨x, full, hm, ht⟩ := inTable_term hsub
+    obtain ⟨rfl, hl⟩ := hscan t (hP x full t hm ht) i m l hs
+    simp only [collapseL, collapse, Tree.leavesL, Tree.leaf, Tree.leaves, List.singleton_append]
+    exact TilesLoose.cons hl (ih (inTable_tail hsub))
+  | @pterm t i j l ss hs =>
+    obtain ⟨rfl, hl⟩ := hiscan t i j l hs
+    simp only [collapseL, collapse, Tree.leavesL, Tree.leaf, Tree.leaves, List.singleton_append, List.append_nil]
+    exact TilesLoose.cons hl (TilesLoose.nil _)
+  | @expl x a r rhs' kids ss ks i m j hx hr h1 h2 ih1 ih2 =>
+    simp only [collapseL, leavesL_append, leavesL_collapse_node]
+    exact tilesLoose_append (ih1 (inTable_rule hr)) (ih2 (inTable_tail hsub))
+  | @impl x a r rhs' k1 ss k2 i m j hx hr h1 h2 ih1 ih2 =>
+    rw [collapseL_append, leavesL_append]
+    exact tilesLoose_append (ih1 (inTable_rule hr)) (ih2 (inTable_tail hsub))
+
+/-- **what a prefix parse of the model yields**: every tree is the collapsed node of the start symbol over a prefix of
+    an expansion of one of its rules in the compiled table (and so on below: `PreL`), spanning all columns; with a
+    typed grammar its leaves tile the whole input, the last one possibly a partial match -/
+theorem prefix_parse_sound (G : Grammar) (v : Variant) (pi : PInput) (start : String)
+    (pred : Nat → NT → List (List ESym)) (R : RegexOracle)
+    (hpred : ∀ k x rhs, rhs ∈ pred k x → (x, rhs) ∈ compile G v.cap)
+    (hty : G.typed pi.inp.isBytes = true) (ho : OracleOk pi.inp R) (hc : CellsOk pi.inp)
+    (fuel : Nat) (ts : List Tree) (h : parsePrefix (mkPCfg G v pi start pred) fuel = some (.ok ts)) :
+    ∀ t ∈ ts, ∃ kids rhs, t = Tree.mk (.nt start) none none (collapseL kids) ∧ (NT.user start, rhs) ∈ compile G v.cap ∧
+      PreL (tableOf G v.cap start) (scanV v pi.inp) (iscanV v pi) rhs kids 0 (8 * pi.inp.cells.length) ∧
+      TilesLoose pi.inp t.leaves 0 (8 * pi.inp.cells.length) := by
+  intro t ht
+  let pc := mkPCfg G v pi start pred
+  have hs : SaneS pc.c := saneS_of_rules pc.c G v.cap rfl hpred
+  have hpos : 0 < pc.c.ncols := by
+    show 0 < 8 * pi.inp.cells.length + 1
+    omega
+  have hn : pc.c.ncols - 1 = 8 * pi.inp.cells.length := by
+    show (8 * pi.inp.cells.length + 1) - 1 = _
+    omega
+  unfold parsePrefix at h
+  have hsound := prefix_chart_sound pc hs hpos fuel
+  cases hrun : runP pc fuel (PM.init pc) with
+  | next pm => rw [show runP (mkPCfg G v pi start pred) fuel (PM.init (mkPCfg G v pi start pred)) = _ from hrun] at h; cases h
+  | raised pm => rw [show runP (mkPCfg G v pi start pred) fuel (PM.init (mkPCfg G v pi start pred)) = _ from hrun] at h; cases h
+  | done pm =>
+    rw [show runP (mkPCfg G v pi start pred) fuel (PM.init (mkPCfg G v pi start pred)) = _ from hrun] at h
+    simp only [Option.some.injEq, Except.ok.injEq] at h
+    subst h
+    rw [hrun] at hsound
+    obtain ⟨pt, hpt, htc⟩ := List.mem_flatMap.1 ht
+    obtain ⟨kids, rhs, rfl, hr, hd⟩ := hsound pt hpt
+    rw [hn] at hd
+    have hd' : PreL (tableOf G v.cap start) (scanV v pi.inp) (iscanV v pi) rhs kids 0 (8 * pi.inp.cells.length) := hd
+    have hr' : (NT.user start, rhs) ∈ compile G v.cap := hr
+    have htiles := preL_tiles G v.cap start pi.inp (scanV v pi.inp) (iscanV v pi) (termTyped pi.inp.isBytes)
+      (fun x full t hm hmem => compile_terms_typed G v.cap pi.inp.isBytes hty hm hmem)
+      (fun t htt i m l hsc => by
+        obtain ⟨_, h2, h3, _⟩ := scanV_ok v pi.inp R ho hc htt hsc
+        exact ⟨h2, h3⟩)
+      (fun t i m l hsc => iscanV_ok v pi hc hsc) hd' (inTable_rule (List.mem_cons_of_mem _ hr'))
+    have hte : t = Tree.mk (.nt start) none none (collapseL kids) := by
+      have hst : pc.c.start = start := rfl
+      rw [hst] at htc
+      simpa [collapse, ntName] using htc
+    refine ⟨kids, rhs, hte, hr', hd', ?_⟩
+    rw [hte]
+    simpa [Tree.leaves] using htiles
 
 end FV.Earley
